@@ -547,7 +547,7 @@ def do_fault(op, client):
     return None
 
 
-FAULT_KINDS = ["assess_missing", "exc_site", "bad_selection", "flush", "reenter"]
+FAULT_KINDS = ["assess_missing", "exc_site", "exc_site", "bad_selection", "flush", "reenter"]
 
 
 def gen_fault(rng, model):
@@ -555,7 +555,7 @@ def gen_fault(rng, model):
     op = {"op": "fault", "kind": k, "key": rng.randint(0, 2**30)}
     if k == "exc_site":
         op["at"] = rng.randrange(max(progs.n_blocks(model), 1))
-        op["method"] = rng.choice(["simulate", "assess", "generate", "update", "regenerate"])
+        op["method"] = rng.choice(["simulate", "assess", "generate", "update", "update", "regenerate", "regenerate"])
     return op
 
 
